@@ -42,6 +42,13 @@ pub trait Elem: Field {
         Self::from_abs(&nest(c, &Self::shape()), true)
     }
 
+    /// type-specific operations beyond the `Field` trait (norm, conjugation, multiplication by subfield elements, sparse
+    /// multiplications, cyclotomic square / inverse / exponentiation): (variant name, abstract result) for every way the
+    /// type offers to compute `op`; empty when it offers none
+    fn extra(&self, _op: &str, _args: &Value, _big: bool) -> Vec<(String, Result<Value, String>)> {
+        Vec::new()
+    }
+
     // prime-field-only operations (None / unsupported for extensions)
     fn p_from_bytes_mod(_bytes: &[u8], _be: bool) -> Option<Self> {
         None
@@ -111,7 +118,7 @@ impl<T: MontConfig<N>, const N: usize> Elem for Fp<MontBackend<T, N>, N> {
     }
 }
 
-impl<P: QuadExtConfig> Elem for QuadExtField<P>
+impl<P: QuadExtConfig + QExtra> Elem for QuadExtField<P>
 where
     P::BaseField: Elem,
 {
@@ -142,13 +149,16 @@ where
         l.push(json!({"deg": 2, "nr": P::NONRESIDUE.to_abs(big).expect("canonical nonresidue")}));
         l
     }
+    fn extra(&self, op: &str, args: &Value, big: bool) -> Vec<(String, Result<Value, String>)> {
+        P::extra(self, op, args, big)
+    }
     fn has_sqrt() -> bool {
         // the quadratic template takes roots through the base field
         P::BaseField::has_sqrt()
     }
 }
 
-impl<P: CubicExtConfig> Elem for CubicExtField<P>
+impl<P: CubicExtConfig + CExtra> Elem for CubicExtField<P>
 where
     P::BaseField: Elem,
 {
@@ -183,7 +193,177 @@ where
         l.push(json!({"deg": 3, "nr": P::NONRESIDUE.to_abs(big).expect("canonical nonresidue")}));
         l
     }
+    fn extra(&self, op: &str, args: &Value, big: bool) -> Vec<(String, Result<Value, String>)> {
+        P::extra(self, op, args, big)
+    }
     fn has_sqrt() -> bool {
         <Self as Field>::SQRT_PRECOMP.is_some()
+    }
+}
+
+// ---------------------------------------------------------------------------------------
+// Type-specific tower operations.  The inherent methods (mul_by_014, mul_by_fp2, cyclotomic_square, ...) live on the
+// concrete tower types, i.e. on QuadExtField / CubicExtField instantiated with the wrapper configurations of ark-ff,
+// so the dispatch is a trait on those wrappers.
+use ark_ff::fields::models::{fp12_2over3over2, fp2, fp3, fp4, fp6_2over3, fp6_3over2};
+use ark_ff::CyclotomicMultSubgroup;
+
+pub type Extra = Vec<(String, Result<Value, String>)>;
+pub trait QExtra: QuadExtConfig { fn extra(x: &QuadExtField<Self>, op: &str, args: &Value, big: bool) -> Extra; }
+pub trait CExtra: CubicExtConfig { fn extra(x: &CubicExtField<Self>, op: &str, args: &Value, big: bool) -> Extra; }
+
+fn run<T>(out: &mut Extra, name: &str, f: impl FnOnce() -> Result<T, String>, abs: impl Fn(&T) -> Result<Value, String>) {
+    let r = guarded(f).and_then(|x| x).and_then(|v| abs(&v));
+    out.push((name.to_string(), r));
+}
+fn exp_limbs(args: &Value, big: bool) -> Vec<u64> { let mut l = num_from_json(&args["e"], big).to_u64_digits(); if l.is_empty() { l.push(0); } l }
+
+/// operations every quadratic template instance has: norm, conjugate, multiplication by an element of the level below
+fn quad_common<P: QuadExtConfig>(x: &QuadExtField<P>, op: &str, args: &Value, big: bool, top: usize, out: &mut Extra) where P::BaseField: Elem {
+    match op {
+        "norm" => run(out, "norm", || Ok(x.norm()), |v| v.to_abs(big)),
+        "conj" => { run(out, "conjugate_in_place", || { let mut y = *x; y.conjugate_in_place(); Ok(y) }, |v: &QuadExtField<P>| Ok(json!([v.c0.to_abs(big)?, v.c1.to_abs(big)?]))); }
+        "mul_base" if args["j"].as_u64() == Some(top as u64 - 1) => {
+            let s = P::BaseField::from_abs(&args["s"], big);
+            run(out, "mul_assign_by_basefield", || { let mut y = *x; y.mul_assign_by_basefield(&s); Ok(y) }, |v: &QuadExtField<P>| Ok(json!([v.c0.to_abs(big)?, v.c1.to_abs(big)?])));
+        }
+        _ => {}
+    }
+}
+fn cubic_common<P: CubicExtConfig>(x: &CubicExtField<P>, op: &str, args: &Value, big: bool, top: usize, out: &mut Extra) where P::BaseField: Elem {
+    let abs = |v: &CubicExtField<P>| -> Result<Value, String> { Ok(json!([v.c0.to_abs(big)?, v.c1.to_abs(big)?, v.c2.to_abs(big)?])) };
+    match op {
+        "norm" => run(out, "norm", || Ok(x.norm()), |v| v.to_abs(big)),
+        "mul_base" if args["j"].as_u64() == Some(top as u64 - 1) => {
+            let s = P::BaseField::from_abs(&args["s"], big);
+            run(out, "mul_assign_by_base_field", || { let mut y = *x; y.mul_assign_by_base_field(&s); Ok(y) }, abs);
+        }
+        _ => {}
+    }
+}
+macro_rules! cyc_ops { ($x:expr, $op:expr, $args:expr, $big:expr, $out:expr, $abs:expr) => {{
+    match $op {
+        "cyc_sq" => { run($out, "cyclotomic_square", || Ok($x.cyclotomic_square()), $abs);
+                      run($out, "cyclotomic_square_in_place", || { let mut y = *$x; y.cyclotomic_square_in_place(); Ok(y) }, $abs); }
+        "cyc_inv" => { run($out, "cyclotomic_inverse", || $x.cyclotomic_inverse().ok_or("None".to_string()), $abs);
+                       run($out, "cyclotomic_inverse_in_place", || { let mut y = *$x; y.cyclotomic_inverse_in_place().ok_or("None".to_string())?; Ok(y) }, $abs); }
+        "cyc_exp" => { let l = exp_limbs($args, $big); let l2 = l.clone();
+                       run($out, "cyclotomic_exp", || Ok($x.cyclotomic_exp(&l)), $abs);
+                       run($out, "cyclotomic_exp_in_place", || { let mut y = *$x; y.cyclotomic_exp_in_place(&l2); Ok(y) }, $abs); }
+        _ => {}
+    }
+}}; }
+fn slots(args: &Value) -> Vec<u64> { args["slots"].as_array().map(|a| a.iter().map(|x| x.as_u64().unwrap()).collect()).unwrap_or_default() }
+
+impl<P: fp2::Fp2Config> QExtra for fp2::Fp2ConfigWrapper<P> where P::Fp: Elem {
+    fn extra(x: &fp2::Fp2<P>, op: &str, args: &Value, big: bool) -> Extra {
+        let mut out = Extra::new();
+        let abs = |v: &fp2::Fp2<P>| v.to_abs(big);
+        quad_common(x, op, args, big, 1, &mut out);
+        if op == "mul_base" && args["j"].as_u64() == Some(0) {
+            let s = P::Fp::from_abs(&args["s"], big);
+            run(&mut out, "mul_assign_by_fp", || { let mut y = *x; y.mul_assign_by_fp(&s); Ok(y) }, abs);
+        }
+        cyc_ops!(x, op, args, big, &mut out, abs);
+        out
+    }
+}
+impl<P: fp3::Fp3Config> CExtra for fp3::Fp3ConfigWrapper<P> where P::Fp: Elem {
+    fn extra(x: &fp3::Fp3<P>, op: &str, args: &Value, big: bool) -> Extra {
+        let mut out = Extra::new();
+        let abs = |v: &fp3::Fp3<P>| v.to_abs(big);
+        cubic_common(x, op, args, big, 1, &mut out);
+        if op == "mul_base" && args["j"].as_u64() == Some(0) {
+            let s = P::Fp::from_abs(&args["s"], big);
+            run(&mut out, "mul_assign_by_fp", || { let mut y = *x; y.mul_assign_by_fp(&s); Ok(y) }, abs);
+        }
+        cyc_ops!(x, op, args, big, &mut out, abs);
+        out
+    }
+}
+impl<P: fp4::Fp4Config> QExtra for fp4::Fp4ConfigWrapper<P> where <P::Fp2Config as fp2::Fp2Config>::Fp: Elem {
+    fn extra(x: &fp4::Fp4<P>, op: &str, args: &Value, big: bool) -> Extra {
+        let mut out = Extra::new();
+        let abs = |v: &fp4::Fp4<P>| v.to_abs(big);
+        quad_common(x, op, args, big, 2, &mut out);
+        if op == "mul_base" && args["j"].as_u64() == Some(0) {
+            let s = <P::Fp2Config as fp2::Fp2Config>::Fp::from_abs(&args["s"], big);
+            run(&mut out, "mul_by_fp", || { let mut y = *x; y.mul_by_fp(&s); Ok(y) }, abs);
+        }
+        if op == "mul_base" && args["j"].as_u64() == Some(1) {
+            let s = fp2::Fp2::<P::Fp2Config>::from_abs(&args["s"], big);
+            run(&mut out, "mul_by_fp2", || { let mut y = *x; y.mul_by_fp2(&s); Ok(y) }, abs);
+        }
+        cyc_ops!(x, op, args, big, &mut out, abs);
+        out
+    }
+}
+impl<P: fp6_3over2::Fp6Config> CExtra for fp6_3over2::Fp6ConfigWrapper<P> where <P::Fp2Config as fp2::Fp2Config>::Fp: Elem {
+    fn extra(x: &fp6_3over2::Fp6<P>, op: &str, args: &Value, big: bool) -> Extra {
+        type F2<P> = fp2::Fp2<<P as fp6_3over2::Fp6Config>::Fp2Config>;
+        let mut out = Extra::new();
+        let abs = |v: &fp6_3over2::Fp6<P>| v.to_abs(big);
+        cubic_common(x, op, args, big, 2, &mut out);
+        if op == "mul_base" && args["j"].as_u64() == Some(0) {
+            let s = <P::Fp2Config as fp2::Fp2Config>::Fp::from_abs(&args["s"], big);
+            run(&mut out, "mul_by_fp", || { let mut y = *x; y.mul_by_fp(&s); Ok(y) }, abs);
+        }
+        if op == "mul_base" && args["j"].as_u64() == Some(1) {
+            let s = F2::<P>::from_abs(&args["s"], big);
+            run(&mut out, "mul_by_fp2", || { let mut y = *x; y.mul_by_fp2(&s); Ok(y) }, abs);
+            run(&mut out, "mul_assign_by_fp2", || { let mut y = *x; y.mul_assign_by_fp2(s); Ok(y) }, abs);
+        }
+        if op == "sparse" {
+            let cs: Vec<F2<P>> = args["cs"].as_array().unwrap().iter().map(|c| F2::<P>::from_abs(c, big)).collect();
+            match slots(args).as_slice() {
+                [0, 1] => run(&mut out, "mul_by_01", || { let mut y = *x; y.mul_by_01(&cs[0], &cs[1]); Ok(y) }, abs),
+                [1] => run(&mut out, "mul_by_1", || { let mut y = *x; y.mul_by_1(&cs[0]); Ok(y) }, abs),
+                _ => {}
+            }
+        }
+        cyc_ops!(x, op, args, big, &mut out, abs);
+        out
+    }
+}
+impl<P: fp6_2over3::Fp6Config> QExtra for fp6_2over3::Fp6ConfigWrapper<P> where <P::Fp3Config as fp3::Fp3Config>::Fp: Elem {
+    fn extra(x: &fp6_2over3::Fp6<P>, op: &str, args: &Value, big: bool) -> Extra {
+        type F0<P> = <<P as fp6_2over3::Fp6Config>::Fp3Config as fp3::Fp3Config>::Fp;
+        let mut out = Extra::new();
+        let abs = |v: &fp6_2over3::Fp6<P>| v.to_abs(big);
+        quad_common(x, op, args, big, 2, &mut out);
+        if op == "sparse" {
+            let cs: Vec<F0<P>> = args["cs"].as_array().unwrap().iter().map(|c| F0::<P>::from_abs(c, big)).collect();
+            match slots(args).as_slice() {
+                [0, 3, 4] => run(&mut out, "mul_by_034", || { let mut y = *x; y.mul_by_034(&cs[0], &cs[1], &cs[2]); Ok(y) }, abs),
+                [0, 1, 4] => run(&mut out, "mul_by_014", || { let mut y = *x; y.mul_by_014(&cs[0], &cs[1], &cs[2]); Ok(y) }, abs),
+                _ => {}
+            }
+        }
+        cyc_ops!(x, op, args, big, &mut out, abs);
+        out
+    }
+}
+impl<P: fp12_2over3over2::Fp12Config> QExtra for fp12_2over3over2::Fp12ConfigWrapper<P>
+where <<P::Fp6Config as fp6_3over2::Fp6Config>::Fp2Config as fp2::Fp2Config>::Fp: Elem {
+    fn extra(x: &fp12_2over3over2::Fp12<P>, op: &str, args: &Value, big: bool) -> Extra {
+        type F2<P> = fp2::Fp2<<<P as fp12_2over3over2::Fp12Config>::Fp6Config as fp6_3over2::Fp6Config>::Fp2Config>;
+        type F0<P> = <<<P as fp12_2over3over2::Fp12Config>::Fp6Config as fp6_3over2::Fp6Config>::Fp2Config as fp2::Fp2Config>::Fp;
+        let mut out = Extra::new();
+        let abs = |v: &fp12_2over3over2::Fp12<P>| v.to_abs(big);
+        quad_common(x, op, args, big, 3, &mut out);
+        if op == "mul_base" && args["j"].as_u64() == Some(0) {
+            let s = F0::<P>::from_abs(&args["s"], big);
+            run(&mut out, "mul_by_fp", || { let mut y = *x; y.mul_by_fp(&s); Ok(y) }, abs);
+        }
+        if op == "sparse" {
+            let cs: Vec<F2<P>> = args["cs"].as_array().unwrap().iter().map(|c| F2::<P>::from_abs(c, big)).collect();
+            match slots(args).as_slice() {
+                [0, 3, 4] => run(&mut out, "mul_by_034", || { let mut y = *x; y.mul_by_034(&cs[0], &cs[1], &cs[2]); Ok(y) }, abs),
+                [0, 1, 4] => run(&mut out, "mul_by_014", || { let mut y = *x; y.mul_by_014(&cs[0], &cs[1], &cs[2]); Ok(y) }, abs),
+                _ => {}
+            }
+        }
+        cyc_ops!(x, op, args, big, &mut out, abs);
+        out
     }
 }
